@@ -11,6 +11,10 @@ NOTE = ("Trusted base: Coq 8.16.1 kernel (coqc; coqchk in the thorough tier); no
         "validated on every Store call; BLAKE2b collision freeness is a hypothesis. See DESIGN.md section 7.")
 TECH = "machine-checked proof in Coq 8.16.1 of an executable model + correspondence check against the implementation + independent oracle for the failing-input search"
 CLAIMS = {
+ "C05": ("Theorems: the binary node format and uvarint round-trip; C05_persist_then_load: persisting a tree of ANY residency mix and loading the returned root from the resulting store yields the canonical tree of the same entries (same size, height, bf) with all hash links resolvable; C05_cycles: any number of insert/update/delete/persist-and-reload cycles; operations keep hash links resolvable. Hypotheses: element encodings round-trip, sizes < 2^64, no hash collision among written nodes. "
+         "Partial: v1marshaler (JSON) format and Root JSON round trip not proved (modelled byte-exactly and compared on every run); caches outside the model. Tie: persist/reload histories over all key/value kinds, both formats, Root through JSON, 3 cache modes.", "5 C05"),
+ "C10": ("Theorems: SeekIter from any probe (present or absent, any layer) on a tree of any shape/height/residency yields exactly the entries not smaller than the probe, ascending (generic in the key type); iteration; empty trees. "
+         "Partial: cursor operations (Min/Max/Ceil/Forward/Backward/Get) are modelled and compared with the implementation (random walks on all residencies incl. empty trees, bisect oracle), their position theorem is not proved yet.", "5 C10"),
  "C01": ("Full per-operation theorems for every key/value type (generic in the order and layer function): Get = lookup, Insert = upsert, Delete = remove "
          "(incl. down to empty), failing deletes, Iter = the sorted list, Size, Clone, on trees of any residency mix; history theorem "
          "C01_refines_sorted_map_partial over all finite histories of new/insert/update/delete/get/size/iter/clone/persist on any number of trees "
@@ -38,10 +42,8 @@ CLAIMS = {
          "Tie/oracle: perturbed Root fields, loader kind/store, byte-level damage of the top node judged by an independent decoder.", "5 C19"),
 }
 PENDING = {
- "C05": "theorems (codec round trip, reload) still being proved in this round; the check machinery exists (persist/reload correspondence and oracle run clean)",
  "C06": "theorems about the diff stack machine still being proved in this round; correspondence and dictionary-difference oracle exist and run clean",
  "C07": "theorems about link events still being proved in this round; reachable-set oracle and correspondence exist and run clean",
- "C10": "cursor / seek theorems still being proved in this round; bisect oracle and correspondence exist and run clean",
  "C11": "model-level race-freedom theorems still being written; the -race engine and alone-vs-together comparison exist and run clean",
  "C12": "commit-ordering theorems over traces still being proved; the fault-sweep engine exists (known findings listed)",
  "C16": "load-count theorems over traces still being proved; the load-count oracle and one-sided correspondence exist and run clean",
